@@ -91,4 +91,24 @@ theorem defined_segDirection {θ : K} (hs : SqrtPos sq θ)
 example : SqrtPos (fun x : ℚ => x) 0 ∧ (letI := fieldNum ℚ (fun x : ℚ => x); (0 : ℚ) ≤ (segEps : ℚ) * segEps) :=
   ⟨fun _ h => h, mul_self_nonneg _⟩
 
+/-! ## `Triangle::scaled_normal`, `Triangle::normal` (3-D) -/
+
+/-- **C20 (`Triangle::scaled_normal`, `Triangle::normal`)**: the cross product is total; the unit normal is `None` for a flat
+triangle (`|n|² ≤ EPSILON²`, no division performed) and `n / |n|` otherwise. -/
+theorem defined_triNormal3 {θ : K} (hs : SqrtPos sq θ)
+    (hθ : letI := fieldNum K sq; θ ≤ (segEps : K) * segEps) (a b c : V3 K) : letI := fieldNum K sq
+    (triScaledNormal3 (lift3 a : V3 (Opt K sq)) (lift3 b) (lift3 c) = lift3 (triScaledNormal3 a b c)) ∧
+    (triNormal3 (lift3 a : V3 (Opt K sq)) (lift3 b) (lift3 c) = (triNormal3 a b c).map lift3) := by
+  letI := fieldNum K sq
+  have he : (segEps : Opt K sq) = val (segEps : K) := rfl
+  have h1 : triScaledNormal3 (lift3 a : V3 (Opt K sq)) (lift3 b) (lift3 c) = lift3 (triScaledNormal3 a b c) := by
+    simp only [triScaledNormal3, optsimp]
+  refine ⟨h1, ?_⟩
+  simp only [triNormal3, h1, he, optsimp]
+  by_cases h : (segEps : K) * segEps < (triScaledNormal3 a b c).normSq
+  · have hn : sq (triScaledNormal3 a b c).normSq ≠ 0 := hs.ne (lt_of_le_of_lt hθ h)
+    have hnn : ¬ (triScaledNormal3 a b c).normSq < 0 := not_lt.mpr (normSq3_nonneg (sq := sq) _)
+    simp only [if_pos h, if_neg hnn, if_neg hn, optsimp]
+  · simp only [if_neg h, optsimp]
+
 end C20
